@@ -419,3 +419,202 @@ Proof.
   - apply mc_net; [exact Hn| |now apply core_ip].
     apply (forallb_notin ipch); [exact HI|reflexivity].
 Qed.
+
+(* ------------------------------------------------------------------ the IP values *)
+Lemma inet_aton_quad a b c d a' b' c' d' :
+  digits a = true -> digits b = true -> digits c = true -> digits d = true ->
+  aton_part a = Some a' -> aton_part b = Some b' -> aton_part c = Some c' -> aton_part d = Some d' ->
+  inet_aton (quad a b c d) = Ok [a'; b'; c'; d'].
+Proof.
+  intros Ha Hb Hc Hd A B C D. unfold inet_aton. rewrite (dotted_quad a b c d Ha Hb Hc Hd), A, B, C, D. reflexivity.
+Qed.
+
+(* what pdu.py computes for address ipv, mask length len, port, host text h *)
+Definition ip_denoted (ipv len port : N) (h : str) : ipinfo :=
+  let ipz := Z.of_N ipv in
+  let mask := Z.land (Z.shiftl M32 (32 - Z.of_N len)) M32 in
+  mkIp ipz mask (Some (Z.land ipz (Z.lnot mask))) (Some (Z.land ipz mask)) (Z.of_N port) h
+       (inet_ntoa (be4 (Z.to_N (Z.land (Z.lor (Z.land ipz mask) (Z.lnot mask)) M32)))).
+
+Lemma land_port port : port <= 65535 -> Z.to_N (Z.land (Z.of_N port) 65535) = port.
+Proof.
+  intro H. change 65535%Z with (Z.ones 16). rewrite Z.land_ones by lia.
+  rewrite Z.mod_small; [apply N2Z.id|]. change (2 ^ 16)%Z with 65536%Z. lia.
+Qed.
+
+Lemma ip_from_text_ok a b c d m p a' b' c' d' :
+  digits a = true -> digits b = true -> digits c = true -> digits d = true ->
+  aton_part a = Some a' -> aton_part b = Some b' -> aton_part c = Some c' -> aton_part d = Some d' ->
+  dec_val (odefault s47808 p) <= 65535 -> dec_val (odefault s32 m) <= 32 ->
+  ip_from_text (quad a b c d) m p =
+    Ok ([a'; b'; c'; d'] ++ be2 (dec_val (odefault s47808 p)),
+        ip_denoted (be_val [a'; b'; c'; d']) (dec_val (odefault s32 m)) (dec_val (odefault s47808 p)) (quad a b c d)).
+Proof.
+  intros Ha Hb Hc Hd A B C D Hp Hm. unfold ip_from_text.
+  destruct (65535 <? Z.of_N (dec_val (odefault s47808 p)))%Z eqn:E1; [lia|].
+  rewrite (inet_aton_quad a b c d a' b' c' d' Ha Hb Hc Hd A B C D). cbn [bind].
+  destruct (32 <? Z.of_N (dec_val (odefault s32 m)))%Z eqn:E2; [lia|].
+  rewrite (land_port _ Hp). reflexivity.
+Qed.
+
+Lemma ip_from_text_port_refused h m p : 65535 < dec_val (odefault s47808 p) -> ip_from_text h m p = Err ValueErr.
+Proof. intro H. unfold ip_from_text. destruct (65535 <? Z.of_N (dec_val (odefault s47808 p)))%Z eqn:E; [reflexivity|lia]. Qed.
+
+Lemma ip_from_text_mask_refused h m p : 32 < dec_val (odefault s32 m) -> exists e, ip_from_text h m p = Err e.
+Proof.
+  intro H. unfold ip_from_text. destruct (65535 <? _)%Z; [eexists; reflexivity|].
+  destruct (inet_aton h); cbn [bind]; [|eexists; reflexivity].
+  destruct (32 <? Z.of_N (dec_val (odefault s32 m)))%Z eqn:E; [eexists; reflexivity|lia].
+Qed.
+
+(* canonical decimal octets are read back by inet_aton: swept over 0..255 *)
+Lemma aton_dec_sweep :
+  forallb (fun k => match aton_part (dec_str (N.of_nat k)) with Some v => v =? N.of_nat k | None => false end)
+          (seq 0 256) = true.
+Proof. vm_compute. reflexivity. Qed.
+
+Lemma aton_dec a : a < 256 -> aton_part (dec_str a) = Some a.
+Proof.
+  intro H. pose proof aton_dec_sweep as S. rewrite forallb_forall in S.
+  specialize (S (N.to_nat a)). rewrite N2Nat.id in S.
+  destruct (aton_part (dec_str a)) as [v|].
+  - f_equal. apply N.eqb_eq. apply S. apply in_seq. lia.
+  - discriminate S. apply in_seq. lia.
+Qed.
+
+(* ------------------------------------------------------------------ print, then parse *)
+(* the three shapes str() gives to a station's octets *)
+Inductive mac_text (l : list N) : str -> Prop :=
+| MT_dec b : l = [b] -> b < 256 -> mac_text l (dec_str b)
+| MT_hex : l <> [] -> bytes_ok l = true -> mac_text l (48 :: 120 :: btox l)
+| MT_ip a b c d port p : l = [a; b; c; d] ++ be2 port -> a < 256 -> b < 256 -> c < 256 -> d < 256 ->
+    port <= 65535 -> opt_digits p = true -> dec_val (odefault s47808 p) = port ->
+    mac_text l (ip_text (quad (dec_str a) (dec_str b) (dec_str c) (dec_str d)) None p).
+
+Lemma be_val2 p1 p2 : be_val [p1; p2] = p1 * 256 + p2.
+Proof. unfold be_val. cbn [fold_left]. lia. Qed.
+
+Lemma print_mac_shape l : l <> [] -> bytes_ok l = true -> exists s, print_mac (Some l) = Ok s /\ mac_text l s.
+Proof.
+  intros Hne Hok. destruct l as [|x [|y r]]; [congruence| |].
+  - exists (dec_str x). split; [reflexivity|]. apply MT_dec; [reflexivity|].
+    cbn [bytes_ok forallb] in Hok. unfold byte_ok in Hok. lia.
+  - cbn [print_mac].
+    replace (lenN (x :: y :: r) <? 2) with false by (unfold lenN; cbn [length]; lia).
+    set (port := be_val (skipn (length (x :: y :: r) - 2) (x :: y :: r))).
+    destruct ((lenN (x :: y :: r) =? 6) && (47808 <=? port) && (port <=? 47823)) eqn:E.
+    + apply andb_true_iff in E as [E E3]. apply andb_true_iff in E as [E1 E2].
+      unfold lenN in E1. cbn [length] in E1.
+      destruct r as [|c [|d [|p1 [|p2 [|z r']]]]]; cbn [length] in E1; try lia.
+      subst port. cbn [length Nat.sub skipn] in *. rewrite be_val2 in *.
+      cbn [bytes_ok forallb] in Hok. unfold byte_ok in Hok.
+      eexists. split; [reflexivity|].
+      set (port := p1 * 256 + p2) in *.
+      change (firstn 4 [x; y; c; d; p1; p2]) with [x; y; c; d].
+      change (inet_ntoa [x; y; c; d]) with (quad (dec_str x) (dec_str y) (dec_str c) (dec_str d)).
+      assert (Hl : [x; y; c; d; p1; p2] = [x; y; c; d] ++ be2 port).
+      { unfold be2, port. cbn [app]. repeat f_equal; lia. }
+      destruct (port =? 47808) eqn:EP.
+      * change (quad (dec_str x) (dec_str y) (dec_str c) (dec_str d) ++ [])
+          with (ip_text (quad (dec_str x) (dec_str y) (dec_str c) (dec_str d)) None None).
+        apply (MT_ip _ x y c d port None Hl); try lia; [reflexivity|].
+        cbn [odefault]. change (dec_val s47808) with 47808. lia.
+      * change (quad (dec_str x) (dec_str y) (dec_str c) (dec_str d) ++ 58 :: dec_str port)
+          with (ip_text (quad (dec_str x) (dec_str y) (dec_str c) (dec_str d)) None (Some (dec_str port))).
+        apply (MT_ip _ x y c d port (Some (dec_str port)) Hl); try lia.
+        -- cbn [opt_digits]. apply dec_str_digits.
+        -- cbn [odefault]. apply dec_str_val.
+    + eexists. split; [reflexivity|]. apply MT_hex; [discriminate|exact Hok].
+Qed.
+
+Lemma mac_text_ip_from l a b c d port p :
+  l = [a; b; c; d] ++ be2 port -> a < 256 -> b < 256 -> c < 256 -> d < 256 -> port <= 65535 ->
+  dec_val (odefault s47808 p) = port ->
+  exists i, ip_from_text (quad (dec_str a) (dec_str b) (dec_str c) (dec_str d)) None p = Ok (l, i).
+Proof.
+  intros Hl Ha Hb Hc Hd Hp Hv. eexists.
+  rewrite (ip_from_text_ok _ _ _ _ None p a b c d); try apply dec_str_digits; try now apply aton_dec.
+  - rewrite Hv, Hl. reflexivity.
+  - lia.
+  - cbn [odefault]. change (dec_val s32) with 32. lia.
+Qed.
+
+Lemma mac_text_local l s : mac_text l s ->
+  exists x, decode_str s = Ok x /\ ty x = ALocalStation /\ net x = None /\ mac x = Some l /\ route x = None.
+Proof.
+  intros [b Hl Hb | Hne Hok | a b c d port p Hl Ha Hb Hc Hd Hp Hop Hv].
+  - rewrite (decode_station _ (dec_str_digits b)), dec_str_val.
+    destruct (256 <=? b) eqn:E; [lia|]. subst l. eexists. repeat split.
+  - destruct (decode_hex (btox l) (hex_pairs_btox l Hne Hok)) as (b0 & U & D).
+    rewrite (unhex_btox l Hok) in U. injection U as <-. rewrite D. eexists. repeat split.
+  - destruct (mac_text_ip_from l a b c d port p Hl Ha Hb Hc Hd Hp Hv) as [i Hi].
+    rewrite decode_ip; try apply dec_str_digits; [|reflexivity|exact Hop].
+    rewrite Hi. cbn [bind fst snd]. eexists. repeat split.
+Qed.
+
+Lemma mac_text_remote l s n : mac_text l s -> digits n = true -> dec_val n < 65535 ->
+  exists x, decode_str (n ++ 58 :: s) = Ok x /\ ty x = ARemoteStation /\
+            net x = Some (Z.of_N (dec_val n)) /\ mac x = Some l /\ route x = None.
+Proof.
+  intros [b Hl Hb | Hne Hok | a b c d port p Hl Ha Hb Hc Hd Hp Hop Hv] Hn Hnv.
+  - rewrite (decode_net_station n _ Hn (dec_str_digits b)), dec_str_val.
+    destruct (65535 <=? Z.of_N (dec_val n))%Z eqn:E0; [lia|].
+    destruct (256 <=? b) eqn:E; [lia|]. subst l. eexists. repeat split.
+  - destruct (decode_net_hex n (btox l) Hn (hex_pairs_btox l Hne Hok)) as (b0 & U & D).
+    rewrite (unhex_btox l Hok) in U. injection U as <-. rewrite D.
+    destruct (65535 <=? Z.of_N (dec_val n))%Z eqn:E0; [lia|]. eexists. repeat split.
+  - destruct (mac_text_ip_from l a b c d port p Hl Ha Hb Hc Hd Hp Hv) as [i Hi].
+    rewrite decode_net_ip; try apply dec_str_digits; [|exact Hn|reflexivity|exact Hop].
+    destruct (65535 <=? Z.of_N (dec_val n))%Z eqn:E0; [lia|].
+    rewrite Hi. cbn [bind fst snd]. eexists. repeat split.
+Qed.
+
+(* addresses that denote something: route-free, not Null, stations carry 1+ octets < 256,
+   remote ones a network in 0..65534 *)
+Definition wf_net (o : option Z) : Prop := exists n, o = Some n /\ (0 <= n < 65535)%Z.
+Definition wf_mac (o : option (list N)) : Prop := exists l, o = Some l /\ l <> [] /\ bytes_ok l = true.
+Definition wf_addr (a : addr) : Prop :=
+  route a = None /\
+  match ty a with
+  | ANull => False
+  | ALocalBroadcast | AGlobalBroadcast => net a = None /\ mac a = None
+  | ARemoteBroadcast => wf_net (net a) /\ mac a = None
+  | ALocalStation => net a = None /\ wf_mac (mac a)
+  | ARemoteStation => wf_net (net a) /\ wf_mac (mac a)
+  end.
+
+Lemma print_parse_key a : wf_addr a ->
+  exists s a', print a = Ok s /\ decode_str s = Ok a' /\ key a' = key a /\ route a' = None.
+Proof.
+  destruct a as [t n m r i]. unfold wf_addr, key. cbn [ty net mac route]. intros [-> H].
+  destruct t; cbn [ty] in H.
+  - contradiction.
+  - destruct H as [-> ->]. exists [42]. eexists. repeat split.
+  - destruct H as [-> (l & -> & Hne & Hok)].
+    destruct (print_mac_shape l Hne Hok) as (s & Hs & Ht).
+    destruct (mac_text_local l s Ht) as (x & D & X1 & X2 & X3 & X4).
+    exists s, x. unfold print. cbn [ty mac route net]. rewrite Hs. cbn [bind]. repeat split; try assumption.
+    rewrite X1, X2, X3. reflexivity.
+  - destruct H as [(z & -> & Hz) ->].
+    exists (dec_str (Z.to_N z) ++ [58; 42]). eexists.
+    unfold print. cbn [ty mac route net print_net bind].
+    replace (dec_strZ z) with (dec_str (Z.to_N z)) by (unfold dec_strZ; destruct z; try reflexivity; lia).
+    split; [reflexivity|]. rewrite (decode_net_bcast _ (dec_str_digits _)), dec_str_val.
+    destruct (65535 <=? Z.of_N (Z.to_N z))%Z eqn:E; [lia|]. repeat split. cbn [ty net mac]. rewrite Z2N.id by lia. reflexivity.
+  - destruct H as [(z & -> & Hz) (l & -> & Hne & Hok)].
+    destruct (print_mac_shape l Hne Hok) as (s & Hs & Ht).
+    destruct (mac_text_remote l s (dec_str (Z.to_N z)) Ht (dec_str_digits _)) as (x & D & X1 & X2 & X3 & X4).
+    { rewrite dec_str_val. lia. }
+    exists (dec_str (Z.to_N z) ++ 58 :: s), x. unfold print. cbn [ty mac route net print_net bind].
+    replace (dec_strZ z) with (dec_str (Z.to_N z)) by (unfold dec_strZ; destruct z; try reflexivity; lia).
+    rewrite Hs. cbn [bind]. repeat split; try assumption.
+    rewrite X1, X2, X3, dec_str_val, Z2N.id by lia. reflexivity.
+  - destruct H as [-> ->]. exists [42; 58; 42]. eexists. repeat split.
+Qed.
+
+Lemma print_parse a : wf_addr a ->
+  exists s a', print a = Ok s /\ decode_str s = Ok a' /\ eqb a a' = true.
+Proof.
+  intro H. destruct (print_parse_key a H) as (s & a' & P & D & K & R).
+  exists s, a'. repeat split; try assumption. apply eqb_key; [now right|]. congruence.
+Qed.
